@@ -21,6 +21,7 @@ type c03env struct {
 	members  []base.LocalNode // index 0 = node 1
 	outsider []base.LocalNode // nodes 8, 9
 	wrongkey []base.LocalNode // node 10+i
+	alias    []base.LocalNode // node 20+i: member i's key under another spelling (upper case) of its address: another address, not in the suffrage
 	point    base.Point
 	prev     util.Hash
 	facts    map[string]isaac.INITBallotFact // per expel set: built on demand
@@ -44,6 +45,8 @@ func c03newEnv(n int) *c03env {
 		ln := base.RandomLocalNode()
 		e.members = append(e.members, ln)
 		e.wrongkey = append(e.wrongkey, isaac.NewLocalNode(base.NewMPrivatekey(), ln.Address()))
+		as := ln.Address().String()
+		e.alias = append(e.alias, isaac.NewLocalNode(ln.Privatekey(), base.NewStringAddress(strings.ToUpper(as[:len(as)-base.AddressTypeSize]))))
 	}
 	e.outsider = []base.LocalNode{base.RandomLocalNode(), base.RandomLocalNode()}
 	return e
@@ -57,6 +60,8 @@ func (e *c03env) node(id int) base.LocalNode {
 		return e.outsider[id-8]
 	case id > 10 && id-10 <= len(e.members):
 		return e.wrongkey[id-11]
+	case id > 20 && id-20 <= len(e.members):
+		return e.alias[id-21]
 	}
 	return nil
 }
@@ -347,6 +352,9 @@ func (c *Ctx) c03gen(n int, t10s []int, t10 int) c03vp {
 	}
 	if c.Chance(1, 40) {
 		v.Votes = append(v.Votes, [2]string{"8", lean})
+	}
+	if c.Chance(1, 20) { // a member votes once more under another spelling of its address
+		v.Votes = append(v.Votes, [2]string{fmt.Sprint(21 + c.Intn(n)), lean})
 	}
 	if len(v.Expels) > 0 && c.Chance(1, 4) {
 		v.Stuck = true
